@@ -36,9 +36,11 @@ let () =
     Printf.printf "opcodes %d na=%d nb=%d all=%s groups=%s\n" idx na nb (groups_s all) (groups_s groups));
 
   register "diff" (fun idx f ->
-    if get_or f "colour" "0" <> "0" then
-      Printf.printf "diff %d unsupported=colour\n" idx
-    else begin
+    if get_or f "colour" "0" <> "0" then begin
+      (* colours on: only the pass/fail decision is modelled ("*" = not compared) *)
+      let a = unhex (get f "a") and b = unhex (get f "b") in
+      Printf.printf "diff %d empty=%s report=*\n" idx (if diff_empty a b then "1" else "0")
+    end else begin
       let a = unhex (get f "a") and b = unhex (get f "b") in
       let name = unhex (get f "name") in
       let line = nat_of_int (int_of_string (get f "line")) in
